@@ -181,6 +181,8 @@ def recorded_on_every_exit(ctx, f, fld, src):
 
 
 def run(ctx):
+    from .C15 import refresh_keeps_nothing
+    refresh_keeps_nothing(ctx)      # a detector judges this tick's sample: nothing a context remembers outlives refresh()
     from .C01 import configured_patterns
     configured_patterns(ctx)      # an empty list item must not become CgroupPath(fs, "") - the root cgroup - in a detector's watched set
     integer_text_is_decimal(ctx, "C08")
